@@ -132,7 +132,8 @@ def main():
     if a.replay:
         return replay_cmd(J, prop, a.replay)
     tier = a.tier if a.tier in ('quick', 'thorough') else 'quick'
-    joblist = J.JOBS[prop][tier]
+    # the thorough tier is a superset: every quick job plus the deeper ones
+    joblist = list(J.JOBS[prop]['quick']) + (list(J.JOBS[prop]['thorough']) if tier == 'thorough' else [])
     if a.only: joblist = [j for j in joblist if re.search(a.only, j.name)]
     if a.tl:
         for j in joblist: j.time_limit = a.tl
